@@ -1,20 +1,18 @@
 """C19 — entropy-regularised policy iteration.  BEL-2 (evaluation system, look-ahead), ALG normal form of the softmax
-improvement, convergence / result wiring, wrapper layout."""
+improvement, convergence / result wiring, wrapper layout.  All rules bind local names through structural patterns."""
 from __future__ import annotations
 
 import ast
 from fractions import Fraction
 from typing import Dict, List, Optional
 
-from .. import alg
-from ..bellman import check_einsums_in_function, monomials, classify_monomial, is_discount
-from ..callgraph import CallGraph
+from .. import alg, pat
+from ..bellman import check_einsums_in_function, monomials, classify_monomial
 from ..cfg import cfg_of
-from ..dag import T, walk, show
 from ..model import FunctionInfo, AnalysisError
 from ..report import Ctx
 from ..tensor import Typer
-from ..util import norm, fn_body_nodes, kwarg
+from ..util import norm, fn_body_nodes, kwarg, lexical_guards, atomic_facts
 from .common import names_in, calls_named
 
 EXPLANATION = (
@@ -29,6 +27,17 @@ RULES = ("EVAL-1 system matrix eye - gamma*P_pi, right-hand side r_pi - w*KL; LO
          "CONV-1 convergence flag and returned iterate; WRAP-1 wrapper inputs and output layout; TEN-1 einsum kinds")
 
 
+def single_defs(stmts) -> Dict[str, ast.Assign]:
+    """local name -> its assignment, for names assigned exactly once among stmts (chained targets count for each name)."""
+    cnt: Dict[str, List[ast.Assign]] = {}
+    for n in stmts:
+        if isinstance(n, ast.Assign):
+            for t in n.targets:
+                if isinstance(t, ast.Name):
+                    cnt.setdefault(t.id, []).append(n)
+    return {k: v[0] for k, v in cnt.items() if len(v) == 1}
+
+
 def run(ctx: Ctx):
     P, X = ctx.P, ctx.X
     f = P.fn("entropy_regularized_policy_iteration")
@@ -38,143 +47,204 @@ def run(ctx: Ctx):
     if not loops:
         raise AnalysisError("entropy_regularized_policy_iteration: main loop vanished")
     lp = loops[0]
-    defs: Dict[str, ast.Assign] = {}
-    for n in ast.walk(lp):
-        if isinstance(n, ast.Assign):
-            for t in n.targets:
-                if isinstance(t, ast.Name):
-                    defs.setdefault(t.id, n)
-    aliases = {"tf": "transition_matrix", "rf": "reward_matrix"}
+    lstm = [n for n in ast.walk(lp) if isinstance(n, ast.stmt)]
+    defs = single_defs(lstm)
+    # aliases of the tensors
+    alias = {"transition_matrix": "transition_matrix", "reward_matrix": "reward_matrix"}
     for n in fn_body_nodes(f):
         if isinstance(n, ast.Assign) and isinstance(n.targets[0], ast.Name) and isinstance(n.value, ast.Name) and n.value.id in ("transition_matrix", "reward_matrix"):
-            aliases[n.targets[0].id] = n.value.id
-    tf = next((k for k, v in aliases.items() if v == "transition_matrix"), "tf")
-    rf = next((k for k, v in aliases.items() if v == "reward_matrix"), "rf")
+            alias[n.targets[0].id] = n.value.id
+    def is_T(name): return alias.get(name) == "transition_matrix"
+    def is_R(name): return alias.get(name) == "reward_matrix"
     check_einsums_in_function(ctx, f, typer)
     # ---- evaluation
-    v = defs.get("v")
-    if v is None or not (isinstance(v.value, ast.Call) and ast.unparse(v.value.func).endswith("linalg.solve")):
-        ctx.violation("EVAL-1", f, lp, "policy evaluation by a linear solve", "state values are not obtained from a linear solve")
+    sv, e = pat.first(lp, "V_v = torch.linalg.solve(E_A, E_b)", nodes=lstm)
+    env = dict(e or {})
+    if sv is None:
+        ctx.violation("EVAL-1", f, lp, "policy evaluation by a linear solve", "state values are not obtained from a linear solve inside the loop")
     else:
-        A, b = v.value.args
+        A, b = e["A"], e["b"]
         pA = alg.normalise(A)
-        mpn = None
-        ok = False
-        for m, c in pA.items():
-            atoms = dict(m)
-            if "discount_rate" in atoms and c == -1 and len(atoms) == 2:
-                mpn = next(k for k in atoms if k != "discount_rate")
-                ok = True
-        has_eye = any(len(m) == 1 and m[0][0] == "eye" and c == 1 for m, c in pA.items())
-        ctx.check(ok and has_eye and len(pA) == 2, "EVAL-1", f, v, "system matrix = eye - gamma * P_pi", alg.show(pA), f"system matrix normalises to `{alg.show(pA)}`")
-        if mpn and mpn in defs:
-            src = ast.unparse(defs[mpn].value).replace(" ", "")
-            ok = src in (f"(pi[:,:,None]*{tf}[:,:,:]).sum(dim=1)", f"(pi[:,:,None]*{tf}).sum(dim=1)", f"torch.einsum('sa,san->sn',pi,{tf})")
-            ctx.check(ok, "EVAL-1", f, defs[mpn], "P_pi = sum over actions of pi(a|s) T(s'|s,a)", src, f"policy chain is `{src}`: it must weight T by the current policy and sum the *action* axis")
-        pb = alg.normalise(b, resolve=lambda nme: defs[nme].value if nme in ("s_rf_ent",) and nme in defs else None)
-        want = {(("s_rf", 1),): Fraction(1), tuple(sorted((("entropy_weight", 1), ("s_ent", 1)))): Fraction(-1)}
-        ctx.check(pb == want, "EVAL-1", f, v, "right-hand side = r_pi - w * KL(pi||pi0)", alg.show(pb), f"right-hand side normalises to `{alg.show(pb)}`")
-        se = defs.get("s_ent")
-        ok = se is not None and ast.unparse(se.value).replace(" ", "") == "torch.nansum(torch.log(pi/pi0)*pi,dim=1)"
-        ctx.check(ok, "EVAL-1", f, se if se is not None else lp, "KL term = sum_a pi log(pi/pi0)", "", f"entropy term is `{ast.unparse(se.value) if se is not None else None}`")
-        sr = defs.get("s_rf")
-        ok = sr is not None and isinstance(sr.value, ast.Call) and sr.value.args and getattr(sr.value.args[0], "value", "").replace(" ", "") == "san,san,sa->s" \
-            and sorted(ast.unparse(a) for a in sr.value.args[1:3]) == sorted([rf, tf]) and ast.unparse(sr.value.args[3]) == "pi"
-        ctx.check(ok, "EVAL-1", f, sr if sr is not None else lp, "r_pi = sum_{a,s'} pi T R", "", "policy reward is not the expectation of R under T and the current policy")
-    # ---- look-ahead
-    q = defs.get("q")
-    if q is not None:
-        t = X.expr(f, q.value)
-        ms = monomials(t)
-        cl = [classify_monomial(typer, m) for m in ms]
-        rew = [c for c in cl if c["R"] and c["T"]]
-        fut = [c for c in cl if c["T"] and not c["R"]]
-        ctx.check(len(rew) == 1 and rew[0]["disc"] == 0, "LOOK-1", f, q, "look-ahead reward term T*R undiscounted", str(rew), "reward term of the look-ahead is missing or discounted")
-        ctx.check(len(fut) == 1 and fut[0]["disc"] == 1 and fut[0]["other"] >= 1, "LOOK-1", f, q, "look-ahead future term T*gamma*v discounted once", str(fut), "future term of the look-ahead is missing or not discounted exactly once")
-        ok = ast.unparse(q.value).replace(" ", "").endswith(".sum(dim=-1)")
-        ctx.check(ok, "LOOK-1", f, q, "look-ahead sums the successor axis", "", "look-ahead does not sum over the successor axis")
-        ctx.check("v[None,None,:]" in ast.unparse(q.value).replace(" ", ""), "LOOK-1", f, q, "state values are aligned with the successor axis", "", "state values are broadcast along the wrong axis")
+        ea = None
+        if len(pA) == 2:
+            one = [m_ for m_, c in pA.items() if len(m_) == 1 and m_[0][1] == 1 and c == 1 and m_[0][0].isidentifier()]
+            two = [m_ for m_, c in pA.items() if len(m_) == 2 and c == -1 and dict(m_).get("discount_rate") == 1]
+            if one and two:
+                other = [k for k, e_ in two[0] if k != "discount_rate" and e_ == 1 and k.isidentifier()]
+                if other:
+                    ea = {"eye": one[0][0][0], "mp": other[0]}
+        ctx.check(ea is not None, "EVAL-1", f, sv, "system matrix = eye - gamma * P_pi", alg.show(pA), f"system matrix normalises to `{alg.show(pA)}`")
+        if ea is not None:
+            env.update(ea)
+            eyed = [n for n, _ in pat.find(f.node, "V_eye = torch.eye(ANY)", env)]
+            ctx.check(bool(eyed), "EVAL-1", f, sv, "the identity term is torch.eye(n_states)", "", "the first term of the system matrix is not the identity")
+            mpd = defs.get(ea["mp"])
+            em = None
+            if mpd is not None:
+                for pt in ("V_mp = (V_pi[:, :, None] * V_tf[:, :, :]).sum(dim=1)", "V_mp = (V_pi[:, :, None] * V_tf).sum(dim=1)", "V_mp = torch.einsum('sa,san->sn', V_pi, V_tf)"):
+                    em = em or pat.m(pt, mpd, env)
+            ok = em is not None and is_T(em["tf"])
+            ctx.check(ok, "EVAL-1", f, mpd if mpd is not None else sv, "P_pi = sum over actions of pi(a|s) T(s'|s,a)", "",
+                      f"policy chain is `{norm(mpd.value) if mpd is not None else None}`: it must weight T by the current policy and sum the *action* axis")
+            if em:
+                env.update(em)
+        # right-hand side
+        chain0 = {k: d.value for k, d in defs.items() if isinstance(d.value, ast.BinOp)}
+        pb = alg.normalise(b, lambda nme: chain0.get(nme))
+        eb = None
+        if len(pb) == 2:
+            one = [m_ for m_, c in pb.items() if len(m_) == 1 and m_[0][1] == 1 and c == 1 and m_[0][0].isidentifier()]
+            two = [m_ for m_, c in pb.items() if len(m_) == 2 and c == -1 and dict(m_).get("entropy_weight") == 1]
+            if one and two:
+                other = [k for k, e_ in two[0] if k != "entropy_weight" and e_ == 1 and k.isidentifier()]
+                if other:
+                    eb = {"srf": one[0][0][0], "sent": other[0]}
+        ctx.check(eb is not None, "EVAL-1", f, sv, "right-hand side = r_pi - w * KL(pi||pi0)", alg.show(pb), f"right-hand side normalises to `{alg.show(pb)}`")
+        if eb is not None:
+            env.update(eb)
+            sed = defs.get(eb["sent"])
+            es = pat.m("V_sent = torch.nansum(torch.log(V_pi / V_pi0) * V_pi, dim=1)", sed, env) if sed is not None else None
+            ctx.check(es is not None, "EVAL-1", f, sed if sed is not None else sv, "KL term = sum_a pi log(pi/pi0)", "", f"entropy term is `{norm(sed.value) if sed is not None else None}`")
+            if es:
+                env.update(es)
+            srd = defs.get(eb["srf"])
+            er = pat.m("V_srf = torch.einsum(E_spec, V_x, V_y, V_pi)", srd, env) if srd is not None else None
+            ok = er is not None and isinstance(er["spec"], ast.Constant) and str(er["spec"].value).replace(" ", "") == "san,san,sa->s" \
+                and sorted([alias.get(er["x"], "?"), alias.get(er["y"], "?")]) == ["reward_matrix", "transition_matrix"]
+            ctx.check(ok, "EVAL-1", f, srd if srd is not None else sv, "r_pi = sum_{a,s'} pi T R", "", "policy reward is not the expectation of R under T and the current policy")
+    # ---- improvement (found first: it identifies the action-value variable)
+    npi, en = pat.first(lp, "V_newpi = torch.softmax(E_arg, E_ax)", env, nodes=lstm)
+    qname = None
+    if npi is None:
+        ctx.violation("IMP-1", f, lp, "softmax improvement", "the improved policy is not a softmax")
     else:
-        ctx.violation("LOOK-1", f, lp, "action values computed", "q is not computed")
-    # ---- improvement
-    npi = defs.get("new_pi")
-    if npi is not None and isinstance(npi.value, ast.Call) and ast.unparse(npi.value.func).endswith("softmax"):
-        arg = npi.value.args[0]
-        ax = npi.value.args[1] if len(npi.value.args) > 1 else kwarg(npi.value, "dim")
-        ctx.check(ax is not None and ast.unparse(ax) == "-1", "IMP-1", f, npi, "softmax over the action axis", "", "softmax is not over the last (action) axis")
+        env.update({k: v for k, v in en.items() if k in ("newpi",)})
+        ctx.check(pat.txt(en["ax"]) in ("-1", "1"), "IMP-1", f, npi, "softmax over the action axis", "", f"softmax is over axis {pat.txt(en['ax'])}, not the action axis")
+        chain = {k: d.value for k, d in defs.items() if isinstance(d.value, (ast.BinOp, ast.Name))}
 
         def resolve(nme):
-            if nme in ("q_action", "q_scale") and nme in defs:
-                return defs[nme].value
-            return None
-        p = alg.normalise(arg, resolve)
-        # expected:  (1/w)*q + log(pi0)
-        logp = [m for m in p if any(k.startswith("torch.log(") for k, _ in m)]
-        qterm = [m for m in p if any(k == "q" for k, _ in m)]
-        ok = len(p) == 2 and len(logp) == 1 and len(qterm) == 1
-        if ok:
+            return chain.get(nme)
+        p = alg.normalise(en["arg"], resolve)
+        logp = [m_ for m_ in p if any(k.replace(" ", "").startswith("torch.log(") for k, _ in m_)]
+        others = [m_ for m_ in p if m_ not in logp]
+        ok_shape = len(p) == 2 and len(logp) == 1 and len(others) == 1
+        if ok_shape:
             lm = dict(logp[0])
-            ok_log = len(lm) == 1 and p[logp[0]] == 1 and list(lm)[0].replace(" ", "") == "torch.log(pi0)"
-            qm = dict(qterm[0])
-            ok_q = p[qterm[0]] == 1 and qm.get("q") == 1 and len(qm) == 2 and any("entropy_weight" in k for k in qm)
-            wpow = [e for k, e in qm.items() if "entropy_weight" in k]
-            ok_q = ok_q and (wpow == [-1] or any(k.startswith("1/") or "1 / entropy_weight" in k for k in qm))
+            pi0n = env.get("pi0")
+            ok_log = len(lm) == 1 and p[logp[0]] == 1 and (pi0n is None or list(lm)[0].replace(" ", "") == f"torch.log({pi0n})")
+            qm = dict(others[0])
+            wk = [k for k in qm if "entropy_weight" in k]
+            qk = [k for k in qm if k not in wk]
+            ok_q = p[others[0]] == 1 and len(qk) == 1 and qm[qk[0]] == 1 and len(wk) == 1 and (qm[wk[0]] == -1 or wk[0].replace(" ", "").startswith("1/"))
+            if ok_q:
+                qname = qk[0]
             ctx.check(ok_log, "IMP-1", f, npi, "log-prior enters the softmax with coefficient 1", alg.show(p),
                       f"softmax argument normalises to `{alg.show(p)}`: the log-prior must not be scaled by the entropy weight")
             ctx.check(ok_q, "IMP-1", f, npi, "action values enter the softmax divided by the entropy weight", alg.show(p),
                       f"softmax argument normalises to `{alg.show(p)}`: q must be divided by the entropy weight exactly once")
         else:
-            known_atoms = all(any(s_ in k for s_ in ("q", "entropy_weight", "pi0")) for m in p for k, _ in m)
-            if known_atoms:
+            simple = all(any(s_ in k for s_ in ("entropy_weight", "torch.log")) or k.isidentifier() for m_ in p for k, _ in m_)
+            if simple:
                 ctx.violation("IMP-1", f, npi, "improvement = softmax_A(q/w + log pi0)", f"softmax argument normalises to `{alg.show(p)}`")
             else:
                 ctx.unknown("IMP-1", f, npi, "improvement = softmax_A(q/w + log pi0)", f"normal form {alg.show(p)}")
+    # ---- look-ahead
+    qd = defs.get(qname) if qname else None
+    if qd is None:
+        # fall back: the assignment whose value multiplies T with (R + gamma v)
+        for k, d in defs.items():
+            src = ast.unparse(d.value)
+            if any(is_T(nm) for nm in names_in(d.value)) and any(is_R(nm) for nm in names_in(d.value)) and "discount_rate" in src and ".sum(" in src and "einsum" not in src:
+                qd, qname = d, k
+    if qd is not None:
+        t = X.expr(f, qd.value)
+        ms = monomials(t)
+        cl = [classify_monomial(typer, m_) for m_ in ms]
+        rew = [c for c in cl if c["R"] and c["T"]]
+        fut = [c for c in cl if c["T"] and not c["R"]]
+        ctx.check(len(rew) == 1 and rew[0]["disc"] == 0, "LOOK-1", f, qd, "look-ahead reward term T*R undiscounted", str(rew), "reward term of the look-ahead is missing or discounted")
+        ctx.check(len(fut) == 1 and fut[0]["disc"] == 1 and fut[0]["other"] >= 1, "LOOK-1", f, qd, "look-ahead future term T*gamma*v discounted once", str(fut), "future term of the look-ahead is missing or not discounted exactly once")
+        ok = ast.unparse(qd.value).replace(" ", "").endswith(".sum(dim=-1)")
+        ctx.check(ok, "LOOK-1", f, qd, "look-ahead sums the successor axis", "", "look-ahead does not sum over the successor axis")
+        vname = env.get("v")
+        ctx.check(vname is not None and f"{vname}[None,None,:]" in ast.unparse(qd.value).replace(" ", ""), "LOOK-1", f, qd, "state values are aligned with the successor axis", "", "state values are broadcast along the wrong axis")
     else:
-        ctx.violation("IMP-1", f, lp, "softmax improvement", "new policy is not a softmax")
+        ctx.violation("LOOK-1", f, lp, "action values computed", "no look-ahead of the form sum T*(R + gamma v) feeds the improvement")
     # ---- convergence flag and returned iterate
-    cfg = cfg_of(f)
-    conv = [n for n in ast.walk(lp) if isinstance(n, ast.Assign) and ast.unparse(n.targets[0]) == "converged"]
+    conv = [(n, e_) for n, e_ in pat.find(lp, "V_c = True", nodes=lstm)]
+    cname = None
     if conv:
-        node = cfg.node_for(conv[0])
-        gs = [cfg.nodes[b].ast.test for b, lab in cfg.guards(node) if cfg.nodes[b].kind == "if" and lab.startswith("T")]
-        src = " ".join(ast.unparse(g) for g in gs).replace(" ", "")
-        ok = "torch.all(torch.isclose(pi,new_pi))" in src or "torch.isclose(pi,new_pi).all()" in src
-        ctx.check(ok, "CONV-1", f, conv[0], "converged = True only under isclose(pi, new_pi).all()", src, f"converged is set under `{src}`")
-        ctx.check(ast.unparse(conv[0].value) == "True", "CONV-1", f, conv[0], "flag value is True", "", "flag value is not True")
-        pre = [n for n in fn_body_nodes(f) if isinstance(n, ast.Assign) and ast.unparse(n.targets[0]) == "converged" and not any(n is x for x in ast.walk(lp))]
-        ctx.check(bool(pre) and ast.unparse(pre[0].value) == "False", "CONV-1", f, pre[0] if pre else f.node, "converged starts as False", "", "converged is not initialised to False")
-        brk = [b for b in ast.walk(lp) if isinstance(b, ast.Break)]
-        ctx.check(bool(brk), "CONV-1", f, lp, "iteration stops at convergence", "", "the loop does not stop when the policy is stable")
+        cst, ce = conv[0]
+        cname = ce["c"]
+        facts = atomic_facts(lexical_guards(f, cst))
+        want = {f"torch.all(torch.isclose({env.get('pi')}, {env.get('newpi')}))", f"torch.all(torch.isclose({env.get('newpi')}, {env.get('pi')}))",
+                f"torch.isclose({env.get('pi')}, {env.get('newpi')}).all()"}
+        ok = any(t in want and tr for t, tr in facts)
+        ctx.check(ok, "CONV-1", f, cst, "converged = True only under isclose(pi, new_pi).all()", str(sorted(facts)), f"converged is set under {sorted(facts)}")
+        pre = [n for n, _ in pat.find(f.node, f"{cname} = False") if not any(n is x for x in ast.walk(lp))]
+        ctx.check(bool(pre), "CONV-1", f, pre[0] if pre else f.node, "converged starts as False", "", "converged is not initialised to False")
+        ctx.check(any(isinstance(b, ast.Break) for b in ast.walk(lp)), "CONV-1", f, lp, "iteration stops at convergence", "", "the loop does not stop when the policy is stable")
     else:
-        ctx.violation("CONV-1", f, lp, "converged flag", "converged is never set inside the loop")
+        ctx.violation("CONV-1", f, lp, "converged flag", "no flag is set to True inside the loop")
     rets = [n for n in fn_body_nodes(f) if isinstance(n, ast.Return) and isinstance(n.value, ast.Call)]
     if rets:
         kw = {k.arg: ast.unparse(k.value) for k in rets[0].value.keywords}
-        for fld, var in (("policy", "pi"), ("action_values", "q"), ("state_values", "v"), ("converged", "converged")):
-            ctx.check(kw.get(fld) == var, "CONV-1", f, rets[0], f"returned {fld} is `{var}` of the last iteration", "", f"returned `{fld}` is `{kw.get(fld)}`")
-    upd = [n for n in lp.body if isinstance(n, ast.Assign) and ast.unparse(n.targets[0]) == "pi"]
-    ok = bool(upd) and "new_pi" in ast.unparse(upd[0].value)
-    ctx.check(ok, "CONV-1", f, upd[0] if upd else lp, "policy advances to the improved policy", "", "policy is not advanced to new_pi")
+        for fld, var in (("policy", env.get("pi")), ("action_values", qname), ("state_values", env.get("v")), ("converged", cname)):
+            ctx.check(var is not None and kw.get(fld) == var, "CONV-1", f, rets[0], f"returned {fld} is the last iteration's own", f"{fld}={kw.get(fld)}",
+                      f"returned `{fld}` is `{kw.get(fld)}`, not the variable `{var}` of the evaluation/improvement just checked")
+    pin, newpin = env.get("pi"), env.get("newpi")
+    upd = [n for n in lp.body if isinstance(n, ast.Assign) and isinstance(n.targets[0], ast.Name) and n.targets[0].id == pin]
+    ok = bool(upd) and newpin in names_in(upd[0].value)
+    ctx.check(ok, "CONV-1", f, upd[0] if upd else lp, "policy advances to the improved policy", "", "policy is not advanced to the improved policy")
     # ---- wrapper
     w = P.method("EntropyRegularizedPolicyIteration", "plan_on")
-    src = ast.unparse(w.node)
+    mp_ = w.positional_params[1]
+    wenv: Dict[str, object] = {}
     for var, arr in (("tf", "transition_matrix"), ("rf", "reward_matrix"), ("am", "action_matrix")):
-        ctx.check(f"{var} = torch.from_numpy(mdp.{arr}.copy())" in src, "WRAP-1", w, w.node, f"wrapper: {var} is the MDP's {arr}", "", f"`{var}` is not built from mdp.{arr}")
+        n_, e_ = pat.first(w.node, f"V_{var} = torch.from_numpy({mp_}.{arr}.copy())")
+        ctx.check(n_ is not None, "WRAP-1", w, n_ if n_ is not None else w.node, f"wrapper: a tensor is built from the MDP's {arr}", "", f"no tensor is built from {mp_}.{arr}")
+        if e_:
+            wenv.update(e_)
     call = calls_named(w, "entropy_regularized_policy_iteration")
+    resn = None
     if call:
         kw = {k.arg: ast.unparse(k.value) for k in call[0].keywords}
-        want = {"transition_matrix": "tf", "reward_matrix": "rf", "discount_rate": "mdp.discount_rate", "entropy_weight": "self.entropy_weight", "policy_prior": "policy_prior"}
+        want = {"transition_matrix": wenv.get("tf"), "reward_matrix": wenv.get("rf"), "discount_rate": f"{mp_}.discount_rate", "entropy_weight": "self.entropy_weight"}
         for k, vv in want.items():
-            ctx.check(kw.get(k) == vv, "WRAP-1", w, call[0], f"wrapper passes {k}={vv}", "", f"solver's `{k}` is `{kw.get(k)}`")
-    ctx.check("policy_prior = am / am.sum(-1, keepdims=True)" in src, "WRAP-1", w, w.node, "default prior = uniform over available actions", "", "default prior changed")
-    ctx.check("TabularPolicy.from_state_action_lists(mdp.state_list, mdp.action_list, pi_res.policy.detach().numpy())" in src, "WRAP-1", w, w.node,
-              "policy table laid out over (state_list, action_list)", "", "policy table layout changed")
-    ok = "for si, s in enumerate(mdp.state_list)" in src and "for ai, a in enumerate(mdp.action_list)" in src and "qf[s][a] = res._qvaluemat[si, ai]" in src
-    ctx.check(ok, "WRAP-1", w, w.node, "action values labelled [state_list[i]][action_list[j]] = q[i, j]", "", "action-value labelling changed")
-    ok = "for s, vi in zip(mdp.state_list, res._valuevec)" in src and "res._valuevec = pi_res.state_values.detach().numpy()" in src and "res._qvaluemat = pi_res.action_values.detach().numpy()" in src
-    ctx.check(ok, "WRAP-1", w, w.node, "state values labelled by state_list in order; arrays taken from the same-named solver outputs", "", "value labelling / source changed")
-    ctx.check("res.converged = pi_res.converged" in src, "WRAP-1", w, w.node, "wrapper reports the solver's converged flag", "", "converged flag is not the solver's")
-    for rr, k in (("EVAL-1", 5), ("LOOK-1", 4), ("IMP-1", 3), ("CONV-1", 8), ("WRAP-1", 12), ("TEN-1", 1)):
+            ctx.check(vv is not None and kw.get(k) == vv, "WRAP-1", w, call[0], f"wrapper passes {k} from the MDP / configuration", f"{k}={kw.get(k)}", f"solver's `{k}` is `{kw.get(k)}`")
+        pp = kw.get("policy_prior")
+        prd = [n for n, _ in pat.find(w.node, f"{pp} = V_am / V_am.sum(-1, keepdims=True)", wenv)] if pp and pp.isidentifier() else []
+        ctx.check(bool(prd), "WRAP-1", w, prd[0] if prd else call[0], "default prior = uniform over available actions", "", "default prior is not action_matrix normalised over actions")
+        asg = [n for n in ast.walk(w.node) if isinstance(n, ast.Assign) and n.value is call[0] and isinstance(n.targets[0], ast.Name)]
+        resn = asg[0].targets[0].id if asg else None
+    if resn:
+        pt, _ = pat.first(w.node, f"V_p = TabularPolicy.from_state_action_lists({mp_}.state_list, {mp_}.action_list, {resn}.policy.detach().numpy())")
+        if pt is None:
+            pt, _ = pat.first(w.node, f"V_p = TabularPolicy.from_state_action_lists(state_list={mp_}.state_list, action_list={mp_}.action_list, data={resn}.policy.detach().numpy())")
+        ctx.check(pt is not None, "WRAP-1", w, pt if pt is not None else w.node, "policy table laid out over (state_list, action_list)", "", "policy table layout changed")
+        qs, eqs = pat.first(w.node, "V_qf[V_s][V_a] = E_m[V_si, V_ai]")
+        ok = False
+        if qs is not None:
+            l0 = {n.target.elts[0].id: (n.target.elts[1].id, ast.unparse(n.iter)) for n in ast.walk(w.node) if isinstance(n, ast.For) and isinstance(n.target, ast.Tuple)
+                  and len(n.target.elts) == 2 and all(isinstance(x, ast.Name) for x in n.target.elts)}
+            ok = l0.get(eqs["si"]) == (eqs["s"], f"enumerate({mp_}.state_list)") and l0.get(eqs["ai"]) == (eqs["a"], f"enumerate({mp_}.action_list)")
+            msrc = pat.txt(eqs["m"])
+            srcdef = [n for n in ast.walk(w.node) if isinstance(n, ast.Assign) and ast.unparse(n.targets[0]) == msrc]
+            ok = ok and bool(srcdef) and ast.unparse(srcdef[0].value) == f"{resn}.action_values.detach().numpy()"
+        ctx.check(ok, "WRAP-1", w, qs if qs is not None else w.node, "action values labelled [state_list[i]][action_list[j]] = q[i, j] of the solver's action_values", "", "action-value labelling / source changed")
+        vz = [n for n in ast.walk(w.node) if isinstance(n, ast.For) and isinstance(n.iter, ast.Call) and ast.unparse(n.iter.func) == "zip"
+              and len(n.iter.args) == 2 and ast.unparse(n.iter.args[0]) == f"{mp_}.state_list"]
+        ok = False
+        if vz:
+            vsrc = ast.unparse(vz[0].iter.args[1])
+            srcdef = [n for n in ast.walk(w.node) if isinstance(n, ast.Assign) and ast.unparse(n.targets[0]) == vsrc]
+            ok = bool(srcdef) and ast.unparse(srcdef[0].value) == f"{resn}.state_values.detach().numpy()"
+        ctx.check(ok, "WRAP-1", w, vz[0] if vz else w.node, "state values labelled by state_list in order, from the solver's state_values", "", "value labelling / source changed")
+        cvs = [n for n in ast.walk(w.node) if isinstance(n, ast.Assign) and ast.unparse(n.value) == f"{resn}.converged" and ast.unparse(n.targets[0]).endswith(".converged")]
+        ctx.check(bool(cvs), "WRAP-1", w, cvs[0] if cvs else w.node, "wrapper reports the solver's converged flag", "", "converged flag is not the solver's")
+    else:
+        ctx.unknown("WRAP-1", w, w.node, "wrapper result handling", "solver call not bound to a name")
+    for rr, k in (("EVAL-1", 5), ("LOOK-1", 4), ("IMP-1", 3), ("CONV-1", 8), ("WRAP-1", 10), ("TEN-1", 1)):
         ctx.require(rr, k)
     ctx.assume("at a fixed point of the checked evaluate/improve pair the state values equal w*logsumexp_A(q/w + log pi0) (Geist et al. 2019)")
     ctx.assume("as w -> 0 with a uniform prior the soft Bellman operator tends to the hard one")
